@@ -198,7 +198,7 @@ def rule_B(ctx):
         if len(stores) == 1 and len(calls) == 1:
             found = True
             e = stores[0]
-            idx = [x.strip() for x in str(e.index).split(',')]
+            idx = [repr(x) for x in e.index] if isinstance(e.index, tuple) else [str(e.index)]
             args = [a.single_atom() if isinstance(a, Rat) else None for a in calls[0].args[:2]]
             want = {'%s.getObs(%s).position' % (t2, idx[0]), '%s.getObs(%s).position' % (t1, idx[1])} if len(idx) == 2 else set()
             r_o = ws.range_info(lo_.iter, st)
@@ -547,7 +547,7 @@ def rule_F(ctx):
         vals = {e.name: e for e in stores}
         okc = names == sorted([A, F, T]) and wg.rel.is_zero(vals[F].value - Rat.atom(new)) and \
             wg.rel.is_zero(vals[T].value - Rat.atom(new)) and wg.rel.is_zero(vals[A].value - Rat.atom(ant)) and \
-            str(vals[T].index).replace(' ', '') == '%s[0],%s[1]' % (node, node) and \
+            isinstance(vals[T].index, tuple) and [repr(x) for x in vals[T].index] == ['%s[0]' % node, '%s[1]' % node] and \
             isinstance(vals[F].index, Rat) and vals[F].index.single_atom() == node and \
             isinstance(vals[A].index, Rat) and vals[A].index.single_atom() == node
         ctx.check(okc, 'C18.F', g, 'queue key, predecessor and table cell of the node are updated together to the new cost',
